@@ -356,7 +356,7 @@ def exhaustive(tier):
         # the same references a little off the data alignment (a reader that rounds them lands on the same tables)
         for delta in (-0xFFF, -0x800, -1, 1, 0x7FF, 0xFFF):
             yield {"seed": "hyperv", "ops": [], "hv_cycle": variant, "hv_delta": delta}
-    for variant in ("parent-self", "parent-mutual"):
+    for variant in ("parent-self", "parent-mutual", "dup-keytable"):
         yield {"seed": "hyperv", "ops": [], "hv_cycle": variant}
     # a huge allocation unit together with a huge disk size: zero fills must still be sized by the request
     pairs = {
@@ -774,6 +774,14 @@ def hyperv_cycle(variant, delta=0) -> bytes:
         struct.pack_into("<II", data, b, 0x01110001, 1)
         struct.pack_into("<BIQIB", data, b + 8, 1, 0, a + delta, 0x1000, 1)
         entry(free, 1, a, 0x1000)
+    elif variant == "dup-keytable":
+        # a second object table whose 3000 entries all name the same key table with the largest size there is: what a reader keeps per
+        # entry must not be a copy of the rest of the file each time (memory quadratic in the input)
+        other = len(data)
+        n = 3000
+        data.extend(struct.pack("<II", 0x01110001, n) + struct.pack("<BIQIB", 2, 0, 0x3000, 0xFFFFFFFF, 1) * n)
+        data.extend(bytes(-len(data) % 0x1000))
+        entry(free, 1, other, 0x1000)
     elif variant == "parent-self":
         # first entry of key table 1 (offset 0x300A): a node whose parent is itself
         struct.pack_into("<HI", data, 0x300A + 6, 1, 0x0A)
